@@ -1,4 +1,5 @@
 //! Independent reference components (no dependency on quandary).
 pub mod name;
 pub mod rdata;
+pub mod tsig;
 pub mod wire;
